@@ -36,7 +36,7 @@ class OffGrid(Exception):
     pass
 
 
-def run_scenario(K: float, sched: dict[int, str], n_grid: int, gdiv: int, mtypes, close_at=None):
+def run_scenario(K: float, sched: dict[int, str], n_grid: int, gdiv: int, mtypes, close_at=None, chatter=False):
     """sched: grid index -> 'b' (message before the timers of that instant), 'a' (after), 'ba' (both).
     grid step = K/gdiv.  After n_grid steps the peer is silent; we run on until 7.5K past the end.
     Returns (ops, real_obs, log_entries, info)."""
@@ -120,6 +120,9 @@ def run_scenario(K: float, sched: dict[int, str], n_grid: int, gdiv: int, mtypes
         loop._vt = T
         do(f"ka.adv {d}")
         what = sched.get(i, "") if i <= n_grid else ""
+        if chatter and conn.is_connected:
+            # the application keeps sending commands: what the CLIENT writes says nothing about the peer being alive
+            client.switch_command(1, bool(i % 2))
         if "b" in what:
             msg()
         if close_at == i:
@@ -184,7 +187,7 @@ def run(ck: Check):
     for si, (K, sched, n, gdiv, close_at) in enumerate(scen):
         mt = SERVER_TYPES[si % len(SERVER_TYPES):] + SERVER_TYPES[: si % len(SERVER_TYPES)]
         try:
-            ops, obs, log, info = run_scenario(K, sched, n, gdiv, mt, close_at)
+            ops, obs, log, info = run_scenario(K, sched, n, gdiv, mt, close_at, chatter=(si % 3 == 1))
         except OffGrid as e:
             ck.violation("c10:deadline-off-grid", f"keepalive {K} s, messages at grid steps {sorted(sched)} (step K/{gdiv}): a keepalive / pong "
                          f"timer or the detection instant lies at t={e.args[0]:.6f} s, which is not a multiple of K/{U} = {e.args[1]} s - the ping "
